@@ -12,27 +12,32 @@ EXTENDS Naturals, Integers, Sequences, FiniteSets, TLC, Json, IOUtils, Sequences
 TraceLog == TLCGet(7)
 LoadLog == TLCSet(7, ndJsonDeserialize(IOEnv.TRACE))
 
-VARIABLES l, claims   \* claims: <<k,r,N1,seed>> -> claim seen (for enc/dec agreement)
-vars == <<l, claims>>
+VARIABLES l, claims,  \* claims: <<k,r,N1,seed>> -> claim seen (for enc/dec agreement)
+          cnt         \* coverage counters: <<uneven placements, completion entries>> of the validated constructions
+          , last     \* result of the definition for the current line (a variable so that TLC evaluates it once)
+vars == <<l, claims, cnt, last>>
 
 HOf(ev) == [ i \in DOMAIN ev.H |-> ToSet(ev.H[i]) ]
 
 Msg(ev, tags, name) == PrintT(<<"VMSG", l, ev.x, tags, name, ev.codec, ev.role>>)
 
 CheckLine(ev) ==
-    LET spec == Rfc5170(ev.k, ev.r, ev.N1, ev.seed)
+    LET spec == last'
         H    == HOf(ev)
         n    == ev.k + ev.r
         key  == <<ev.k, ev.r, ev.N1, ev.seed>>
         nullTruth == SumOfRows(H) = {n - 1}
-    IN  /\ IF H = spec.H THEN TRUE ELSE Msg(ev, "C05", "pchk-differs-from-rfc5170")
+    IN  /\ last' = Rfc5170(ev.k, ev.r, ev.N1, ev.seed)
+        /\ IF H = spec.H THEN TRUE ELSE Msg(ev, "C05", "pchk-differs-from-rfc5170")
         /\ IF ev.prng[1] * 65536 + ev.prng[2] = spec.final THEN TRUE ELSE PrintT(<<"DRIFT", l, ev.x, "prng-state-after-construction">>)
         /\ IF "lastnull" \in DOMAIN ev /\ ev.lastnull \in {0, 1} THEN TRUE ELSE Msg(ev, "C15", "lastnull-query-failed")
         /\ IF ev.lastnull = 1 => nullTruth THEN TRUE ELSE Msg(ev, "C15", "lastnull-claimed-but-symbol-not-null")
         /\ IF key \in DOMAIN claims => claims[key] = ev.lastnull THEN TRUE ELSE Msg(ev, "C15", "lastnull-claim-differs-between-sessions")
         /\ claims' = IF key \in DOMAIN claims THEN claims ELSE (key :> ev.lastnull) @@ claims
+        /\ cnt' = << cnt[1] + Cardinality({ i \in DOMAIN spec.ins : spec.ins[i][3] = 1 }),
+                     cnt[2] + Cardinality({ i \in DOMAIN spec.ins : spec.ins[i][3] \in {2, 3} }) >>
 
-Init == LoadLog /\ l = 1 /\ claims = << >>
+Init == LoadLog /\ l = 1 /\ claims = << >> /\ cnt = <<0, 0>> /\ last = [H |-> <<>>, extra |-> FALSE, draws |-> 0, final |-> 0, ins |-> <<>>]
 
 Next ==
     /\ l <= Len(TraceLog)
@@ -40,7 +45,8 @@ Next ==
     /\ LET ev == TraceLog[l]
        IN  IF ev.e = "SetParams" /\ ev.codec = 3 /\ ev.st = 0 /\ "H" \in DOMAIN ev /\ ev.seed >= 1
            THEN CheckLine(ev)
-           ELSE UNCHANGED claims
+           ELSE UNCHANGED <<claims, cnt, last>>
+    /\ IF l = Len(TraceLog) THEN PrintT(<<"PSTAT", cnt'[1], cnt'[2]>>) ELSE TRUE
 
 TraceSpec == Init /\ [][Next]_vars
 TraceConsumed == TLCGet("stats").diameter - 1 = Len(TraceLog)
